@@ -312,6 +312,21 @@ pub fn gen(tier: &str, rng: &mut Rng, emit: &mut Emit) {
         let pf = platform_op(rng, &[0], k % 41, Some(70 - k));
         emit_ops(rng, emit, vec![io, rc, pf]);
     }
+    // ID mappings whose destination IOMMU starts beyond 64 KiB (two root complexes with ~3000 mappings first)
+    for _ in 0..(if tier == "thorough" { 8 } else { 2 }) {
+        let io0 = iommu_op(rng, none(), none(), none(), None);
+        let t1 = rng.below(4);
+        let (k1, k2) = (3000 + rng.below(200), 1500 + rng.below(1500));
+        let rc1 = pcierc_op(rng, &[0], t1, Some(k1));
+        let pf1 = platform_op(rng, &[0], 30, Some(k2));
+        let t2 = rand_opt(rng, 64);
+        let io1 = iommu_op(rng, t2, none(), none(), Some(2));
+        let io2 = iommu_op(rng, none(), none(), none(), Some(0));
+        let t1 = rng.below(4);
+        let rc2 = pcierc_op(rng, &[3, 4], t1, Some(5));
+        let pf2 = platform_op(rng, &[4], 9, Some(2));
+        emit_ops(rng, emit, vec![io0, rc1, pf1, io1, io2, rc2, pf2]);
+    }
     // all interleavings of the 3 device kinds for histories of length <= 4
     for len in 1..=4u32 {
         for code in 0..3u64.pow(len) {
